@@ -53,6 +53,9 @@ def main():
             if viol:
                 how = "no-failing-input-found" if all("no-failing-input-found" in v for v in viol) else "concrete replay"
             rows.append((name, pid, verdict, "%s %s(%.0fs)" % (how, extra, time.time() - t0)))
+            meta["last_run"] = {"verdict": verdict, "how": how, "details": extra.strip(),
+                                "violation_lines": viol[:3], "repo_head": sh(["git", "-C", "/repo", "rev-parse", "--short", "HEAD"])[1].strip()}
+            json.dump(meta, open(os.path.join(d, "meta.json"), "w"), indent=1)
             if verdict.startswith("ERROR"):
                 print(out[-1500:])
         finally:
